@@ -72,17 +72,19 @@ contract(
 
 # --- fenced code --------------------------------------------------------------------------------------------------------------
 # In the strict modes (CommonMark / GFM only) every fence is code: one literal block with the content verbatim at the line of the
-# opening fence.  In MyST mode a fence may be a directive; that path is seen through G' (render_directive is not under contract).
+# opening fence.  In MyST mode a fence may be a directive; that path goes through render_directive (contracts/rundirective.py).
 from contracts.assumed_docutils import GP_ENS, GP_MOD, GP_TEXT  # noqa: E402
 
-for _m in ("render_directive", "render_restructuredtext"):
+import contracts.rundirective  # noqa: E402,F401  (render_directive is proved there, relative to the assumed view of a directive's run)
+
+for _m in ("render_restructuredtext",):
     contract(
         f"{M}:DocutilsRenderer.{_m}",
         requires=[], ensures=GP_ENS,
-        types={"token": "SyntaxTreeNode", "name": "str", "arguments": "str", "additional_options": "dict[str, str] | None"},
+        types={"token": "SyntaxTreeNode", "name": "str", "arguments": "str", "additional_options": "OptionsMapping | None"},
         raises={"Exception": []}, modifies=GP_MOD + ["self.g_rc_node"], trusted=True,
     )
-assumed("render_directive / render_restructuredtext", GP_TEXT, "myst_parser")
+assumed("render_restructuredtext", GP_TEXT, "myst_parser")
 # the Sphinx environment, when there is one: only the default highlight language is read from it
 fields("sphinx.environment:BuildEnvironment", temp_data="dict[str, str]", config="SphinxConfig")
 fields("sphinx.config:SphinxConfig", highlight_language="str")
@@ -100,7 +102,10 @@ contract(
         f"{NEW}.kind == 'literal_block' and {NEW}.parent == self.current_node and fresh({NEW})",
         f"{NEW}.text == token.content or {NEW}.text + '\\n' == token.content",
         f"implies(token.map is not None and len(token.map) > 0 and token.map[0] != 0, {NEW}.line == token.map[0])"]],
-    types={"token": "SyntaxTreeNode"}, raises={"Exception": []}, modifies=RMOD, properties=["C02", "C04"],
+    # a fence that is a directive is handed on as it is (its line and text are read from the token by render_directive)
+    at_call={"self.render_directive(": ["_arg0 == token"], "self.render_restructuredtext(": ["_arg0 == token"]},
+    types={"token": "SyntaxTreeNode"}, raises={"Exception": []},
+    modifies=RMOD + ["Document.current_line", "DirectiveClass.option_spec"], properties=["C02", "C04"],
 )
 
 # --- ordered lists ------------------------------------------------------------------------------------------------------------
